@@ -146,6 +146,31 @@ def members():
         a.st(a.le(x, 3.0))
 
     @reg
+    def eventwise_affine_then_static(a):
+        """An event-wise AND affinely adaptive recourse declared BEFORE a here-and-now decision: the slope block of a rule is
+        expanded with the rule's own partition, not with that of the decision declared last.  The supports of the scenarios lie
+        on different pieces of the recourse cost, so one slope for all scenarios is strictly worse."""
+        p = a.scen(3)
+        y = a.dvar(())
+        z = a.rvar(())
+        a.aff(y, z)
+        a.evt(y, [1])
+        a.evt(y, [2])
+        x = a.dvar(())
+        F = a.ambiguity()
+        a.supp(F, [0], a.ge(z, 0.0), a.le(z, 2.0))
+        a.supp(F, [1], a.ge(z, 2.0), a.le(z, 3.0))
+        a.supp(F, [2], a.ge(z, 3.0), a.le(z, 6.0))
+        a.expt(F, [0], a.le(a.Ez(z), 1.25), a.ge(a.Ez(z), 0.75))
+        a.expt(F, [2], a.le(a.Ez(z), 5.0), a.ge(a.Ez(z), 4.0))
+        a.prob(F, a.eq(p, A([0.25, 0.5, 0.25])))
+        a.minsup(a.E(0.25 * x + y), F)
+        a.st(a.ge(y, 2.0 * (z - x)))
+        a.st(a.ge(y, 1.5 * (x - z)))
+        a.st(a.ge(x, 0.0))
+        a.st(a.le(x, 5.0))
+
+    @reg
     def expectation_constraint(a):
         p = a.scen(2)
         x = a.dvar(2)
